@@ -1,5 +1,6 @@
 import TrucModel.Proofs.Corollaries
 import TrucModel.Props.Examples
+import TrucModel.Proofs.GenProps
 /-
   C02 — Every datum is aligned, inside the published capacity, listed in address order.
 -/
@@ -44,6 +45,17 @@ theorem C02_order_strict (reqs : List Req) (hv : ∀ r ∈ reqs, r.valid) :
   have := (List.mem_filter.1 ha).2
   simp at this
   omega
+
+/-- the numbers of the theorems above are the ones published with the generated code: `MAX_SIZE` is
+    `max_size()`, and `RecordUninitialized` as well as *every* record struct carry
+    `#[repr(align(max_type_align()))]` -/
+theorem C02_published (d : Definition) (cfg : Gen.Cfg) (items : List Gen.Item) (h : Gen.module d cfg = some items) :
+    ∃ ms, d.maxSize = some ms ∧
+      Gen.Item.raw s!"pub const MAX_SIZE:usize={ms};" ∈ items ∧
+      Gen.Item.raw (s!"#[repr(align({d.maxTypeAlign}))]pub struct RecordUninitialized<{Gen.CAPG}>" ++ "{_data:RecordMaybeUninit<CAP>,}") ∈ items ∧
+      ∀ s ∈ Gen.specs d,
+        Gen.Item.raw (s!"#[repr(align({d.maxTypeAlign}))]pub struct {Gen.capped s.vid}<{Gen.CAPG}>" ++ "{data:RecordMaybeUninit<CAP>,}") ∈ items :=
+  Gen.module_layout_items d cfg items h
 
 /-- non-vacuity -/
 example : ((run Ex.h1).build.bind (·.maxSize)) = some 24 ∧ ((run Ex.h1).build.map (·.maxTypeAlign)) = some 4 ∧
